@@ -436,6 +436,21 @@ func implModel(c *core.Ctx, pool *gjs.Pool, scens map[string]*scenario) {
 		plainC = plainC[:max]
 	}
 	chosen := append(append([]combo{}, devC...), plainC...)
+	{ // the pinned families are always replayed, in every explored rendering
+		in := map[combo]bool{}
+		for _, k := range chosen {
+			in[k] = true
+		}
+		for _, p := range pinned {
+			for _, v := range p.Vs {
+				for _, y := range p.Ys {
+					if k := (combo{p.ID, v, y}); !in[k] {
+						chosen = append(chosen, k)
+					}
+				}
+			}
+		}
+	}
 	// the rendering of a combination: the machine's V = 0 stands for the three call kinds without wrapper frames
 	rendV := map[combo]int{}
 	for _, k := range chosen {
